@@ -2,7 +2,7 @@
    Property theorems only; proofs live in Page.v / Walk.v / PageMore.v. *)
 From Coq Require Import List Arith Lia Bool ZArith.
 Import ListNotations.
-From GB Require Import Page Walk.
+From GB Require Import Page Walk PageBack.
 
 Theorem C20_forward_page n k o : 0 < k -> o <= n ->
   fwd n k (match o with 0 => None | S o' => Some o' end) =
@@ -14,3 +14,29 @@ Print Assumptions C20_forward_page.
 Theorem C20_forward_walk n k : 0 < k -> walk (S n) n k None = Some (seq 0 n).
 Proof. exact (Walk.C20_forward_walk n k). Qed.
 Print Assumptions C20_forward_walk.
+
+(* backward paging, symmetric: a page last=k, before=cursor(b) returns the k elements before b *)
+Theorem C20_backward_page n k b : 0 < k -> b <= n ->
+  bwd n k (if Nat.ltb b n then Some b else None) =
+  Ok {| p_items := seq (b - Nat.min k b) (Nat.min k b); p_hasnext := Nat.ltb b n; p_hasprev := Nat.ltb k b; p_total := n |}.
+Proof. exact (bwd_page n k b). Qed.
+Print Assumptions C20_backward_page.
+
+(* following start cursors while hasPreviousPage visits every element exactly once, in list order *)
+Theorem C20_backward_walk n k : 0 < k -> walk_back (S n) n k None = Some (seq 0 n).
+Proof. exact (backward_walk n k). Qed.
+Print Assumptions C20_backward_walk.
+
+Theorem C20_negative_first_rejected n i f : i_first i = Some f -> (f < 0)%Z -> paginate n i = ErrFirst.
+Proof. exact (bad_first n i f). Qed.
+Print Assumptions C20_negative_first_rejected.
+
+Theorem C20_foreign_cursors_ignored n f l :
+  paginate n {| i_after := Some Foreign; i_before := Some Foreign; i_first := f; i_last := l |} =
+  paginate n {| i_after := None; i_before := None; i_first := f; i_last := l |}.
+Proof. exact (foreign_cursors_ignored n f l). Qed.
+Print Assumptions C20_foreign_cursors_ignored.
+
+Theorem C20_total n i p : paginate n i = Ok p -> p_total p = n.
+Proof. exact (total_is_length n i p). Qed.
+Print Assumptions C20_total.
